@@ -283,7 +283,13 @@ fn op(allow: bool) -> AclEntryOperator {
 fn check_acl(c: &AclCase, obs: &mut Obs) -> CheckResult {
     let built = AclPolicy::new_from_entries(op(c.default_allow), c.entries.iter().map(|(a, p)| AclEntry::new(op(*a), sut_pred(p))));
     // the textual form: "{op} {pred} ... {default-op}"; a catch-all predicate is only allowed last
-    let has_wild_inner = c.entries.iter().any(|(_, p)| sut_pred(p).is_wildcard());
+    // catch-all predicates judged by the reference (ISD 0, AS absent or 0, no interface named) -
+    // not by the SUT's own is_wildcard()
+    let ref_wild = |p: &Pred| p.isd == 0 && p.asn.unwrap_or(0) == 0 && match p.ifs { Ifs::Any => true, Ifs::Either(x) => x == 0, Ifs::Both(x, y) => x == 0 && y == 0 };
+    let has_wild_inner = c.entries.iter().any(|(_, p)| ref_wild(p));
+    for (_, p) in &c.entries {
+        ensure!(sut_pred(p).is_wildcard() == ref_wild(p), "predicate-wildcard-classification", "HopPredicate::is_wildcard() = {} for {:?}", !ref_wild(p), p);
+    }
     let parsed = if has_wild_inner {
         None
     } else {
@@ -297,6 +303,12 @@ fn check_acl(c: &AclCase, obs: &mut Obs) -> CheckResult {
         let p = vcore::no_panic("AclPolicy::parse", || AclPolicy::parse(&s))?
             .map_err(|e| Fail::new("acl-rejected", format!("valid ACL {s:?} rejected: {e}")))?;
         ensure!(p == built, "acl-parse-differs", "ACL {s:?} parsed to {p:?}, expected {built:?}");
+        // the same text without its default operator is not an ACL (no entry is a catch-all)
+        if !c.entries.is_empty() {
+            let cut = s[..s.len() - 1].trim_end().to_string();
+            let r = vcore::no_panic("AclPolicy::parse", || AclPolicy::parse(&cut))?;
+            ensure!(r.is_err(), "acl-without-default-accepted", "ACL text {cut:?} has no default operator and no catch-all entry but parsed to {r:?}");
+        }
         Some(p)
     };
     let all;
